@@ -210,6 +210,18 @@ func BuildPool(seed int64, id int) *CallPool {
 			}
 		}
 	}
+	// Apply given a null or scalar root: refused, or the result cannot be encoded - a failure inside the encoder
+	// that must leave nothing behind for the next call
+	for _, pt := range []string{`[]`, `[{"op":"copy","from":"","path":"/a"}]`, `[{"op":"test","path":"","value":null}]`, `[{"op":"add","path":"","value":null}]`} {
+		pi := addIn(pt)
+		p.PatchInputs = append(p.PatchInputs, pi)
+		pidx := len(p.PatchInputs) - 1
+		for _, rt := range roots[:6] {
+			p.Calls = append(p.Calls, PoolCall{API: "Apply", A: rt, B: -1, Patch: pidx, Opts: V5Opts{NegIdx: true, EscapeHTML: true}, Class: "apply-to-null-or-scalar-root", SharedOpt: -1})
+		}
+		p.Calls = append(p.Calls, PoolCall{API: "ApplyWithOptions", A: roots[0], B: -1, Patch: pidx, Opts: sharedOptSets[1], Class: "apply-to-null-or-scalar-root", SharedOpt: 1})
+		p.Calls = append(p.Calls, PoolCall{API: "Apply", A: objs[1], B: -1, Patch: pidx, Opts: V5Opts{NegIdx: true, EscapeHTML: true}, Class: "apply-after-root-failures", SharedOpt: -1})
+	}
 	for _, pi := range p.PatchInputs {
 		p.Calls = append(p.Calls, PoolCall{API: "DecodePatch", A: pi, B: -1, Patch: -1, Class: "valid", SharedOpt: -1})
 	}
